@@ -837,7 +837,7 @@ def instances(tier):
     words = 2 if tier == 'quick' else 3
     for w in range(1, words + 1):
         out.append({'name': f'drm[{w}]', 'fn': h_drm, 'params': {'words': w},
-                    'opts': {'max_paths': 60000, 'fork_limit': 130}, 'weight': 10 ** w})
+                    'opts': {'max_paths': 400000, 'fork_limit': 130}, 'weight': 10 ** w})
     out.append({'name': 'time', 'fn': h_time, 'params': {}, 'opts': {'fork_limit': 130}})
     for items in ([1, 2] if tier == 'thorough' else [1]):
         out.append({'name': f'errs[{items}]', 'fn': h_errs, 'params': {'items': items},
@@ -884,9 +884,11 @@ def instances(tier):
                 for mode in ('size', 'cut'):
                     if tier == 'quick' and (lazy and mode == 'cut'):
                         continue
+                    if lazy and name in ('aseg', 'enc-seg'):
+                        continue        # forcing every lazily loaded sample box of a 48 KB segment: minutes per instance
                     out.append({'name': f'mp4[{name},{path}@{start},{"lazy" if lazy else "eager"},{mode}]', 'fn': h_mp4,
                                 'params': {'name': name, 'box': k, 'lazy': lazy, 'mode': mode},
-                                'opts': {'max_paths': 6000, 'max_decisions': 3000, 'fork_limit': 1 << 20, 'time_budget_s': 300}, 'weight': 20})
+                                'opts': {'max_paths': 6000, 'max_decisions': 400000, 'fork_limit': 1 << 20, 'time_budget_s': 600}, 'weight': 20})
     for name in (['moov', 'tseg', 'ebuttd'] if tier == 'quick' else ['moov', 'tseg', 'ebuttd', 'moov-v1', 'emsg-boxes', 'tseg-trun-all', 'eac3-moov', 'enc-moov', 'enc-seg']):
         _, words = _payload_words(name)
         for k, w in enumerate(words):
